@@ -140,6 +140,15 @@ bool Interp::call(Function &Fn, Frame &F, CallBase &CB, Guard &guard) {
     }
     if (starts(n, "llvm.memcpy") || starts(n, "llvm.memmove")) {
       AV d = arg(0)[0], s = arg(1)[0], l = arg(2)[0];
+      if (l.k == AV::INT && (isPtrSel(d) || isPtrSel(s)) && (d.k == AV::PTR || isPtrSel(d)) && (s.k == AV::PTR || isPtrSel(s))) {
+        // a row copied from / to a position chosen by data-dependent comparisons (pivoting): element-sized chunks through the pointer selects
+        int g = (l.i % 8 == 0) ? 8 : (l.i % 4 == 0) ? 4 : 1;
+        auto firstPtr = [&](AV q) { while (q.k == AV::T) q = avOfTerm(TT.t[q.t].a[1]); return q; };
+        AV fs = firstPtr(s); bool efp = fs.k == AV::PTR && fs.region >= 0 && fs.region < (int)S.R.size() && S.R[fs.region].efp && S.R[fs.region].esz == g;
+        std::vector<AV> vals; for (int64_t o = 0; o < l.i; o += g) vals.push_back(load(ptrAdd(s, o), g, efp, 1, src));
+        for (int64_t o = 0; o < l.i; o += g) store(ptrAdd(d, o), vals[o / g], g, 1, src);
+        return true;
+      }
       if (d.k != AV::PTR || s.k != AV::PTR || l.k != AV::INT) { err("memcpy with data-dependent arguments"); return true; }
       if (l.i == 0) return true;
       int da = CB.getParamAlign(0) ? (int)CB.getParamAlign(0)->value() : 1, sa = CB.getParamAlign(1) ? (int)CB.getParamAlign(1)->value() : 1;
